@@ -5,6 +5,7 @@ import (
 	"net"
 	"runtime"
 	"runtime/debug"
+	"sync"
 	"testing"
 
 	"github.com/pion/stun/v3"
@@ -443,6 +444,127 @@ func c20(c *core.Ctx) {
 		if a := testing.AllocsPerRun(100, f); a != 0 {
 			c.Violate("allocates", fmt.Sprintf("alloc:failure-in-the-hot-path:%d", i), map[string]interface{}{"operation": what, "allocs_per_run": a})
 		}
+	})
+	// steady state means steady: more than a million checks on one warm message (in slices of 4096), thousands of small
+	// messages between two large ones, several goroutines each on their own warm message
+	c.SectionSerial("long-runs", 3, func(i int64, r *gen.Rand) {
+		mallocs := func() uint64 {
+			var ms runtime.MemStats
+			runtime.ReadMemStats(&ms)
+
+			return ms.Mallocs
+		}
+		key := stun.MessageIntegrity("long-run key")
+		src := stun.MustBuild(stun.BindingRequest, stun.NewTransactionIDSetter(r.TID()), stun.NewUsername("u"), key, stun.Fingerprint)
+		mk := func() *stun.Message {
+			buf := make([]byte, len(src.Raw), len(src.Raw)+128)
+			copy(buf, src.Raw)
+			m := &stun.Message{Raw: buf}
+			if err := m.Decode(); err != nil {
+				fatalHarness("C20 long run: " + err.Error())
+			}
+
+			return m
+		}
+		switch i {
+		case 0:
+			if c.Config != "rel" {
+				return
+			}
+			m := mk()
+			for k := 0; k < 65536; k++ { // long warm-up: the runtime's own caches (interface assertions, pool victims) settle
+				_ = key.Check(m)
+			}
+			total, worst, worstAt := uint64(0), uint64(0), 0
+			n := 1<<20 + 1<<17
+			for done := 0; done < n; done += 4096 {
+				before := mallocs()
+				for k := 0; k < 4096; k++ {
+					_ = key.Check(m)
+				}
+				d := mallocs() - before
+				total += d
+				if d > worst {
+					worst, worstAt = d, done
+				}
+			}
+			c.Eval(1)
+			c.Count("long_run_checks", int64(n))
+			c.Max("long_run_stray_mallocs", int64(total))
+			if worst >= 4 {
+				c.Violate("allocates", "alloc:long-run:MessageIntegrity.Check", map[string]interface{}{
+					"operation": fmt.Sprintf("%d consecutive MessageIntegrity.Check calls on one warm message", n), "mallocs_in_all": total,
+					"worst_slice_of_4096": worst, "worst_slice_starts_at_call": 65536 + worstAt})
+			}
+		case 1:
+			jumbo := stun.MustBuild(stun.BindingSuccess, stun.NewTransactionIDSetter(r.TID()), stun.RawAttribute{Type: stun.AttrData, Value: r.Bytes(40000)})
+			small := stun.MustBuild(stun.BindingRequest, stun.NewTransactionIDSetter(r.TID()), stun.NewSoftware("small"))
+			jw, sw := append([]byte(nil), jumbo.Raw...), append([]byte(nil), small.Raw...)
+			m := new(stun.Message)
+			_ = stun.Decode(jw, m)
+			_ = stun.Decode(sw, m)
+			_ = stun.Decode(jw, m)
+			before := mallocs()
+			for k := 0; k < 6000; k++ {
+				switch k % 4 {
+				case 0:
+					_ = stun.Decode(sw, m)
+				case 1:
+					_, _ = m.Write(sw)
+				case 2:
+					_ = m.UnmarshalBinary(sw)
+				default:
+					_ = (&stun.Message{Raw: sw}).CloneTo(m)
+				}
+			}
+			_ = stun.Decode(jw, m)
+			d := mallocs() - before
+			c.Eval(1)
+			if d >= 2 { // (&stun.Message{...}) above does not escape; one stray runtime allocation is tolerated
+				c.Violate("allocates", "alloc:long-run:large-small-large", map[string]interface{}{
+					"operation": "a Message used for a 40 KB message decodes 6000 small messages and then the 40 KB message again", "mallocs": d})
+			}
+		default:
+			if c.Config != "rel" {
+				return
+			}
+			const g = 4
+			defer runtime.GOMAXPROCS(runtime.GOMAXPROCS(g))
+			msgs := make([]*stun.Message, g)
+			for k := range msgs {
+				msgs[k] = mk()
+				for w := 0; w < 20000; w++ {
+					_ = key.Check(msgs[k])
+				}
+			}
+			var wg sync.WaitGroup
+			warm := func(n int) {
+				for k := 0; k < g; k++ {
+					wg.Add(1)
+					go func(m *stun.Message) {
+						defer wg.Done()
+						for w := 0; w < n; w++ {
+							_ = key.Check(m)
+						}
+					}(msgs[k])
+				}
+				wg.Wait()
+			}
+			warm(50000) // every P's pool cache holds an object now
+			before := mallocs()
+			warm(200000)
+			d := mallocs() - before
+			c.Eval(1)
+			c.Max("concurrent_long_run_mallocs", int64(d))
+			switch {
+			case d > 2000:
+				c.Violate("allocates", "alloc:long-run:concurrent-checks", map[string]interface{}{
+					"operation": fmt.Sprintf("%d goroutines, each checking its own warm message 200000 times", g), "mallocs": d})
+			case d > 64:
+				c.Inconclusive(1) // goroutine start-up and scheduler noise is a few dozen objects; this is neither
+			}
+		}
+		c.Distinct(uint64(i) | 12<<50)
 	})
 	// an attribute-less message in between must not cost the warm attribute list
 	c.SectionSerial("empty-then-full-decode", 3, func(i int64, r *gen.Rand) {
